@@ -130,13 +130,13 @@ def get_current_url(
 
     # safe = https://url.spec.whatwg.org/#url-path-segment-string
     # as well as percent for things that are already quoted
-    url.append(quote(root_path.rstrip("/"), safe="!$&'()*+,/:;=@%"))
+    url.append(quote(root_path.rstrip("/"), safe="!$&'()*+,/:;=@"))
     url.append("/")
 
     if path is None:
         return uri_to_iri("".join(url))
 
-    url.append(quote(path.lstrip("/"), safe="!$&'()*+,/:;=@%"))
+    url.append(quote(path.lstrip("/"), safe="!$&'()*+,/:;=@"))
 
     if query_string:
         url.append("?")
